@@ -331,7 +331,7 @@ func c14Run(s *sim.Sim, p *sim.Params) {
 	}
 	backendKind := s.Choose(sim.SWork, 5)
 	target := s.Choose(sim.SWork, ntx) // the transaction that receives the fault
-	kinds := []string{"none", "cb-error", "cb-panic", "ctx-cancel", "deadline", "exec", "badconn", "begin", "commit-before", "commit-after", "rollback", "nested-deadline"}
+	kinds := []string{"none", "cb-error", "cb-error-canceled", "cb-error-deadline", "cb-error-wrapped", "cb-error-txdone", "cb-error-badconn", "cb-panic", "ctx-cancel", "deadline", "exec", "badconn", "begin", "commit-before", "commit-after", "rollback", "nested-deadline"}
 	if p.Tier != "thorough" {
 		// quick: a seeded subset of the kinds, every position for each
 		var sub []string
@@ -435,7 +435,24 @@ func c14execute(s *sim.Sim, dir string, n int, backendKind int, txns []c14txn, t
 		default:
 			c14faults.arm("", 0)
 		}
+		// the error the callback gives up with: an application error, or one of the values a
+		// Transaction implementation might be tempted to treat specially — they come from the
+		// callback's own business (a per-statement timeout, a downstream call), while the context
+		// Transaction was given is alive and well
 		cbErr := errors.New("callback gives up")
+		switch fault.kind {
+		case "cb-error-canceled":
+			cbErr = context.Canceled
+		case "cb-error-deadline":
+			cbErr = context.DeadlineExceeded
+		case "cb-error-wrapped":
+			cbErr = fmt.Errorf("lookup of exchange rate: %w", context.DeadlineExceeded)
+		case "cb-error-txdone":
+			cbErr = sql.ErrTxDone
+		case "cb-error-badconn":
+			cbErr = driver.ErrBadConn
+		}
+		isCbErr := strings.HasPrefix(fault.kind, "cb-error")
 		var fnReturned error
 		fnRan, fnCompleted, panicRaised := false, false, false
 		run := func() (err error, panicked interface{}) {
@@ -449,8 +466,12 @@ func c14execute(s *sim.Sim, dir string, n int, backendKind int, txns []c14txn, t
 				_ = fnRan
 				for i, st := range t.stmts {
 					if i == fault.pos {
+						if isCbErr {
+							fnReturned = cbErr
+							return cbErr
+						}
 						switch fault.kind {
-						case "cb-error", "rollback":
+						case "rollback":
 							fnReturned = cbErr
 							return cbErr
 						case "cb-panic":
@@ -492,8 +513,12 @@ func c14execute(s *sim.Sim, dir string, n int, backendKind int, txns []c14txn, t
 					}
 				}
 				if len(t.stmts) == fault.pos {
+					if isCbErr {
+						fnReturned = cbErr
+						return cbErr
+					}
 					switch fault.kind {
-					case "cb-error", "rollback":
+					case "rollback":
 						fnReturned = cbErr
 						return cbErr
 					case "cb-panic":
@@ -684,5 +709,105 @@ func c14orm(s *sim.Sim, dir string, sample *[]string) {
 	}
 	if txErr == nil && cnt != n {
 		s.Fail("oracle", "committed-effects-lost:orm", fmt.Sprintf("ORM.Transaction returned nil but %d of %d rows are in the table", cnt, n))
+	}
+	c14ormNested(s, dir, sample)
+}
+
+// c14ormNested: a transaction opened inside another one's callback. The inner callback writes and
+// then fails; the outer callback handles that error, does its own work and returns normally: the
+// inner callback's writes must be gone, the outer ones present. (The outer transaction has not
+// written yet when the inner one runs, so both implementations — independent transaction on a
+// second connection, or savepoint inside the outer one — can serve it.)
+func c14ormNested(s *sim.Sim, dir string, sample *[]string) {
+	dsn := filepath.Join(dir, "ormnested.sqlite")
+	db, err := sql.Open("sqlitefault", dsn)
+	if err != nil {
+		s.InfraFail(err.Error())
+	}
+	defer db.Close()
+	if _, err := db.Exec("CREATE TABLE IF NOT EXISTS items (id INTEGER PRIMARY KEY, v INTEGER)"); err != nil {
+		s.InfraFail(err.Error())
+	}
+	pg := &PostgresDB{config: &Config{}, db: db}
+	orm := NewORM(pg, "items")
+	nin := 1 + s.Choose(sim.SWork, 3)
+	nout := 1 + s.Choose(sim.SWork, 2)
+	innerFails := s.Choose(sim.SWork, 3) != 0
+	innerPanics := innerFails && s.Choose(sim.SWork, 3) == 0
+	outerFails := s.Choose(sim.SWork, 3) == 0
+	giveUp := errors.New("inner callback gives up")
+	ctx, cancel := context.WithTimeout(context.Background(), 10*time.Second)
+	defer cancel()
+	var innerErr, createErr error
+	innerPanicked := false
+	txErr := orm.Transaction(ctx, func(outerCtx context.Context) error {
+		func() {
+			defer func() {
+				if r := recover(); r != nil {
+					innerPanicked = true
+				}
+			}()
+			innerErr = orm.Transaction(outerCtx, func(innerCtx context.Context) error {
+				for i := 0; i < nin; i++ {
+					if _, err := orm.Create(innerCtx, map[string]interface{}{"id": 500 + i, "v": i}); err != nil {
+						createErr = err
+						return err
+					}
+				}
+				if innerPanics {
+					panic(c14panic{0})
+				}
+				if innerFails {
+					return giveUp
+				}
+				return nil
+			})
+		}()
+		for i := 0; i < nout; i++ {
+			if _, err := orm.Create(outerCtx, map[string]interface{}{"id": 700 + i, "v": i}); err != nil {
+				createErr = err
+				return err
+			}
+		}
+		if outerFails {
+			return errors.New("outer callback gives up")
+		}
+		return nil
+	})
+	rctx, rcancel := context.WithTimeout(context.Background(), 5*time.Second)
+	defer rcancel()
+	var inner, outer int
+	if err := db.QueryRowContext(rctx, "SELECT COUNT(*) FROM items WHERE id < 600").Scan(&inner); err != nil {
+		s.Fail("oracle", "connection-unusable:orm-nested", "after nested ORM.Transaction: "+err.Error())
+	}
+	if err := db.QueryRowContext(rctx, "SELECT COUNT(*) FROM items WHERE id >= 600").Scan(&outer); err != nil {
+		s.Fail("oracle", "connection-unusable:orm-nested", "after nested ORM.Transaction: "+err.Error())
+	}
+	*sample = append(*sample, fmt.Sprintf("nested ORM.Transaction inner=%d rows fails=%v panics=%v, outer=%d rows fails=%v -> innerErr=%v outerErr=%v createErr=%v table inner=%d outer=%d", nin, innerFails, innerPanics, nout, outerFails, innerErr, txErr, createErr, inner, outer))
+	if createErr != nil {
+		s.Probe("orm-nested-not-exercised")
+		return
+	}
+	s.Probe("orm-nested-exercised")
+	if innerFails && !innerPanics && innerErr == nil {
+		s.Fail("oracle", "error-swallowed:orm-nested", "the inner callback returned an error but the inner ORM.Transaction returned nil")
+	}
+	if innerPanics && !innerPanicked {
+		s.Fail("oracle", "panic-swallowed:orm-nested", fmt.Sprintf("the inner callback panicked but the inner ORM.Transaction returned %v instead of re-raising", innerErr))
+	}
+	if innerFails && inner != 0 {
+		s.Fail("oracle", "effects-survived-rollback:orm-nested", fmt.Sprintf("the inner callback wrote %d rows and then failed (error handled by the outer callback, outer ORM.Transaction returned %v): %d of its rows are in the table", nin, txErr, inner))
+	}
+	if !outerFails && txErr == nil && outer != nout {
+		s.Fail("oracle", "committed-effects-lost:orm-nested", fmt.Sprintf("the outer ORM.Transaction returned nil but %d of its %d rows are in the table", outer, nout))
+	}
+	if (outerFails || txErr != nil) && outer != 0 {
+		s.Fail("oracle", "effects-survived-rollback:orm-nested", fmt.Sprintf("the outer ORM.Transaction returned %v but %d of its rows are in the table", txErr, outer))
+	}
+	// a fault-free transaction afterwards completes
+	pctx, pcancel := context.WithTimeout(context.Background(), 5*time.Second)
+	defer pcancel()
+	if perr := orm.Transaction(pctx, func(c context.Context) error { return nil }); perr != nil {
+		s.Fail("oracle", "connection-unusable:orm-nested", "a fault-free ORM.Transaction after the nested one failed: "+perr.Error())
 	}
 }
